@@ -20,7 +20,7 @@ use crate::util::*;
 pub const PROP: Prop = Prop {
     id: "C07",
     level: "fault_enumeration",
-    rule: "(rounds 6-7: one Printer for several values, also after a write error; atoms of 1 MiB (4 and 16 MiB thorough) - string, symbol, keyword, byte vector, string with escapes - under short writes and with a sink that accepts nothing or fails, once or for good, at the first byte, in the middle and at the end) (plus atoms of 256 B .. 64 KiB (128 KiB) with a multi-byte character straddling the size threshold, through every entry point under short-write limits 1, 1000, 4096, 4097 and through Display into a String and into a failing sink) values from G_value (with a number- and byte-vector-heavy variant) x printer option sets (default plus sampled from all 576) x sink schedules: every write accepts at most k bytes for k = 1,2,3,5, a generated cycle of per-call limits, zero-byte acceptance, Interrupted results, and a hard error injected at EVERY output offset 0..=len of the text (exhaustive per value), persistent or occurring once only (the sink would accept later writes again); the sink implements both write and a native write_vectored under the same limits, so a short acceptance may end inside any slice of a vectored call; six entry points (to_writer, to_writer_custom, Printer::new, Printer::with_options, Printer::with_formatter, Display into a failing fmt::Write); oracle: reference text from to_string(_custom); non-trivial = text of at least 8 bytes containing a number, byte vector or escape, under a schedule that splits at least one write call; distinct by digest of (value, options, schedule)",
+    rule: "(round 9: Display into a fmt::Write that refuses exactly one call, at every offset) (rounds 6-7: one Printer for several values, also after a write error; atoms of 1 MiB (4 and 16 MiB thorough) - string, symbol, keyword, byte vector, string with escapes - under short writes and with a sink that accepts nothing or fails, once or for good, at the first byte, in the middle and at the end) (plus atoms of 256 B .. 64 KiB (128 KiB) with a multi-byte character straddling the size threshold, through every entry point under short-write limits 1, 1000, 4096, 4097 and through Display into a String and into a failing sink) values from G_value (with a number- and byte-vector-heavy variant) x printer option sets (default plus sampled from all 576) x sink schedules: every write accepts at most k bytes for k = 1,2,3,5, a generated cycle of per-call limits, zero-byte acceptance, Interrupted results, and a hard error injected at EVERY output offset 0..=len of the text (exhaustive per value), persistent or occurring once only (the sink would accept later writes again); the sink implements both write and a native write_vectored under the same limits, so a short acceptance may end inside any slice of a vectored call; six entry points (to_writer, to_writer_custom, Printer::new, Printer::with_options, Printer::with_formatter, Display into a failing fmt::Write); oracle: reference text from to_string(_custom); non-trivial = text of at least 8 bytes containing a number, byte vector or escape, under a schedule that splits at least one write call; distinct by digest of (value, options, schedule)",
     assumptions: &[
         "the reference text is to_string_custom(v, P), whose agreement with the other non-faulty entry points is C01's clause",
         "Interrupted results are only required to give either Ok with the exact text or Err with a prefix delivered (the statement does not speak about them)",
